@@ -622,15 +622,23 @@ pub fn exec_rbig(w: &mut World, op: &Op, rest: &str, env: &mut Env) {
     let (a, b, c) = (ix(op.a), ix(op.b), ix(op.c));
     let sz = op.m.unsigned_abs() as usize;
     let wide = |seed: &UBig, bits: usize| -> UBig {
-        let low = seed & UBig::ones(bits.min(4096));
-        (UBig::ONE << (bits - 1)) | (&low << ((bits / 3) % 1500)) | low
+        // the seed's bit pattern repeated over the whole width (dense top words), top bit set
+        let pat = (seed & UBig::ones(bits.min(4096))) | UBig::ONE;
+        let step = pat.bit_len() + (bits % 3);
+        let mut v = pat.clone();
+        while v.bit_len() < bits {
+            v = (&v << step) ^ &pat;
+        }
+        (v & UBig::ones(bits - 1)) | (UBig::ONE << (bits - 1))
     };
-    let g0 = (&w.u[c] & UBig::ones(1 + sz % 400)) | UBig::ONE;
-    // lengths in words: both >= 300 half of the time; the gap between the two is what selects the guess paths
+    // (a third of the time no planted factor: the operand shapes below reach the gcd unchanged)
+    let g0 = if sz % 3 == 0 { UBig::ONE } else { (&w.u[c] & UBig::ones(1 + sz % 400)) | UBig::ONE };
+    // lengths in words: both >= 300 half of the time; the word gap between the two and the leading zeros of the two
+    // top words (independent of each other) are what select the paths of the guess
     let words_a = if sz % 2 == 0 { 300 + sz % 40 } else { 150 + sz % 60 };
-    let gap_bits = [0usize, 1, 63, 64, 65, 127, 128, 129, 200, 3000][(op.n.unsigned_abs() % 10) as usize];
+    let word_gap = [0usize, 1, 2, 2, 2, 3, 1, 40][(op.n.unsigned_abs() % 8) as usize];
     let bits_a = 64 * words_a - (sz / 7) % 64;
-    let bits_b = bits_a.saturating_sub(gap_bits).max(130);
+    let bits_b = (64 * (words_a - word_gap)).saturating_sub((sz / 11) % 64).max(130);
     let (a0, b0) = (wide(&w.u[a], bits_a), wide(&w.u[b], bits_b));
     let num = IBig::from_parts(w.i[a].sign(), &g0 * &a0);
     let den = &g0 * &b0;
